@@ -148,6 +148,8 @@ def gen_case(rng, tier, stats, allow_tiny=True, want_dict=None):
         if v < -int(140000 * lw) and rng.chance(0.8):
             v = -rng.range(0, 60)
         return v
+    if rng.chance(0.15):
+        wid("unused")   # a vocabulary word without arcs: add_alt copies nothing
     narcs = rng.range(0, 3 * n + 4) if not big else rng.range(n, 4 * n)
     nullw = rng.choice([20, 35, 50, 70])
     for _ in range(narcs):
@@ -249,6 +251,8 @@ def gen_case(rng, tier, stats, allow_tiny=True, want_dict=None):
                     "addaltpron", "dump"]
     if rng.chance(0.75):
         ops += ["write", f"reread {lws}", "dump"]
+        if rng.chance(0.6):
+            ops += ["closure", "dump"]
         stats["phases"]["roundtrip"] = stats["phases"].get("roundtrip", 0) + 1
     return ops
 
@@ -308,7 +312,7 @@ def gen_read_case(rng, stats):
         if rng.chance(0.3):
             L.append("TRANSITION 0 0 0.5 ignored_after_end")
     text = "\n".join(L) + "\n"
-    return [f"new 1 0 0 - {lws}", f"read {hx(text)} {lws}", "dump"]
+    return [f"new 1 0 0 - {lws}", f"read {hx(text)} {lws}", "dump", "closure", "dump"]
 
 
 # ----------------------------------------------------------------------------- execution
@@ -401,6 +405,33 @@ def oracle_lines(d1, d2, blen):
     g1 = f"{d1['n']} {d1['start']} {d1['final']} {arcs_str(a1)}"
     g2 = f"{d2['n']} {d2['start']} {d2['final']} {arcs_str(a2)}"
     return [f"nfaeq {fl} {bs} {g1} {g2}", f"besteq {blen} {fl} {bs} {g1} {g2}"], names
+
+
+def py_best(d, sent):
+    """independent max-plus best path (Bellman-Ford over null arcs), for cross-checking the driver's bestLogProb"""
+    n = max([d["n"], d["start"] + 1, d["final"] + 1] + [max(a, b) + 1 for (a, b, _, _) in d["arcs"]])
+    NEG = None
+
+    def close(v):
+        for _ in range(n):
+            ch = False
+            for (a, b, lp, w) in d["arcs"]:
+                if w < 0 and v[a] is not None and (v[b] is None or v[a] + lp > v[b]):
+                    v[b] = v[a] + lp
+                    ch = True
+            if not ch:
+                break
+        return v
+    v = [NEG] * n
+    v[d["start"]] = 0
+    v = close(v)
+    for x in sent:
+        nv = [NEG] * n
+        for (a, b, lp, w) in d["arcs"]:
+            if w == x and v[a] is not None and (nv[b] is None or v[a] + lp > nv[b]):
+                nv[b] = v[a] + lp
+        v = close(nv)
+    return v[d["final"]]
 
 
 TRANSFORMS = ("closure", "silence", "alt", "addsilences", "addaltpron", "dict")
@@ -516,12 +547,21 @@ def roundtrip_oracle(d0, wline, reread, d1, lws, ptab):
 
 
 class Runner:
-    def __init__(self, c, binp):
-        self.c, self.binp = c, binp
+    def __init__(self, c, binp, drv=None):
+        self.c, self.binp, self.drv = c, binp, drv
         self.stats = {"oracle_nfaeq": 0, "oracle_besteq": 0, "oracle_errors": 0, "idempotence_checks": 0,
                       "roundtrips": 0, "roundtrips_skipped_below_float32": 0, "roundtrip_exact_logp": 0, "roundtrip_total_arcs": 0,
-                      "best_sentences": 0, "best_accepting": 0, "read_ok": 0, "read_err": 0,
+                      "best_sentences": 0, "best_accepting": 0, "best_crosschecks": 0, "best_crosscheck_failures": [],
+                      "branch_outcomes": {}, "read_ok": 0, "read_err": 0,
                       "closure_added": 0, "closure_raised_or_added_cases": 0}
+
+    def run_driver(self, text, timeout=1800):
+        """the driver binary is shared by all checks and relinked whenever any model changes: run a private copy"""
+        if self.drv is None:
+            return vlib.run_driver("c13", text, timeout=timeout)
+        import subprocess
+        r = subprocess.run([str(self.drv), "c13"], input=text.encode(), stdout=subprocess.PIPE, stderr=subprocess.PIPE, timeout=timeout)
+        return r.returncode, r.stdout.decode(errors="replace"), r.stderr.decode(errors="replace")
 
     def run(self, cases, blen=3):
         """returns list of per-case dicts: {'diff': …, 'oracle': [...], 'crash': …}"""
@@ -607,10 +647,17 @@ class Runner:
                             ol, names = oracle_lines(d1, d2, blen)
                             for l in ol:
                                 script.append(l); tags.append(("oracle", ci, oi, names, list(since)))
+                    dd = parse_dump(o)
+                    if dd and (ci + oi) % 7 == 0:
+                        syms = sorted({w_ for (_, _, _, w_) in dd["arcs"] if w_ >= 0})[:3]
+                        for sent in ([], syms[:1], syms[:2], syms[1:2] + syms[:1], syms[:1] * 2):
+                            script.append(f"best {dd['n']} {dd['start']} {dd['final']} {arcs_str(dd['arcs'])} "
+                                          + (",".join(str(x) for x in sent) if sent else "-"))
+                            tags.append(("best", ci, oi, py_best(dd, sent)))
                     prev_dump, since = o, []
                 else:
                     since.append(w[0])
-        rc2, dout, derr = vlib.run_driver("c13", "\n".join(script) + "\n", timeout=900)
+        rc2, dout, derr = self.run_driver("\n".join(script) + "\n")
         dl = dout.split("\n")
         if dl and dl[-1] == "":
             dl.pop()
@@ -624,6 +671,11 @@ class Runner:
         for tag, line, sl in zip(tags, dl, script):
             if tag[0] == "main":
                 dmain[(tag[1], tag[2])] = line
+            elif tag[0] == "best":
+                self.stats["best_crosschecks"] += 1
+                exp = "v none" if tag[3] is None else f"v {tag[3]}"
+                if line.strip() != exp:
+                    self.stats["best_crosscheck_failures"].append({"line": sl[:300], "driver": line, "python": exp})
             elif tag[0] == "oracle":
                 kind = sl.split()[0]
                 if kind == "nfaeq":
@@ -684,6 +736,8 @@ class Runner:
                 elif w[0] in ("read", "reread"):
                     ok_i, ok_m = o.strip() == "ok", (m or "").strip() == "ok"
                     self.stats["read_ok" if ok_i else "read_err"] += 1
+                    k = "model read: " + (m or "?").strip()
+                    self.stats["branch_outcomes"][k] = self.stats["branch_outcomes"].get(k, 0) + 1
                     if ok_i != ok_m and r["diff"] is None:
                         r["diff"] = (oi, {"op": op, "impl": o, "model": m})
                     if w[0] == "reread" and last_w:
@@ -705,11 +759,25 @@ class Runner:
                 else:
                     if (m or "").strip() != o.strip() and r["diff"] is None:
                         r["diff"] = (oi, {"op": op, "impl": o, "model": m})
+                    if w[0] == "null":
+                        k = "null_add returns " + o.strip()[2:]
+                        self.stats["branch_outcomes"][k] = self.stats["branch_outcomes"].get(k, 0) + 1
+                    elif w[0] == "alt":
+                        k = "add_alt base missing" if o.strip() == "v -1" else ("add_alt copies 0" if o.strip() == "v 0" else "add_alt copies >0")
+                        self.stats["branch_outcomes"][k] = self.stats["branch_outcomes"].get(k, 0) + 1
+                    elif w[0] == "silence":
+                        k = "add_silence all states" if w[2] == "-1" else "add_silence one state"
+                        self.stats["branch_outcomes"][k] = self.stats["branch_outcomes"].get(k, 0) + 1
             # idempotence on the implementation: same transformation twice in a row
             for i in range(len(dumps) - 1):
                 (o1, d1), (o2, d2) = dumps[i], dumps[i + 1]
                 between = case[o1 + 1:o2]
-                if len(between) == 1 and o1 >= 1 and case[o1 - 1] == between[0] and between[0].split()[0] in ("closure", "silence"):
+                prev = case[o1 - 1] if o1 >= 1 else ""
+                again = prev == between[0] if len(between) == 1 else False
+                # what the reader returns has been closed by the reader: closing it again must change nothing
+                if len(between) == 1 and between[0] == "closure" and prev.split()[:1] in (["reread"], ["read"]) and ho[o1 - 1].strip() == "ok":
+                    again = True
+                if len(between) == 1 and o1 >= 1 and again and between[0].split()[0] in ("closure", "silence"):
                     self.stats["idempotence_checks"] += 1
                     if d1 != d2:
                         r["idem"].append({"op": between[0], "first": d1, "second": d2})
@@ -844,7 +912,9 @@ def check(c):
     def judge(cases, label, blen=3):
         nonlocal allok, nviol
         res = runner.run(cases, blen)
-        for case, r in zip(cases, res):
+        # cases in which the implementation-side oracle itself saw the property fail are reported first
+        order = sorted(range(len(cases)), key=lambda i: 0 if (res[i]["oracle"] or res[i]["idem"] or res[i]["round"] or res[i]["crash"]) else 1)
+        for case, r in ((cases[i], res[i]) for i in order):
             if problems_of(r):
                 if nviol >= 3:
                     allok = allok and not (r["diff"] or r["oracle"] or r["idem"] or r["crash"])
@@ -862,8 +932,8 @@ def check(c):
         ops = [l for l in f.read_text().split("\n") if l.strip() and not l.startswith("#")]
         ncorp += 1
         judge([ops], f"corpus {f.name}")
-    ncases = 500 if c.tier == "quick" else 20000
-    nread = 150 if c.tier == "quick" else 4000
+    ncases = 1500 if c.tier == "quick" else 20000
+    nread = 400 if c.tier == "quick" else 4000
     batch = []
     for i in range(ncases):
         ops = gen_case(c.rng, c.tier, stats)
@@ -905,6 +975,8 @@ def check(c):
     c.oblige("oracle on the implementation: language and best log-probability over real words unchanged by closure / "
              "add_silence / add_alt / add_silences / add_altpron; closure and add_silence idempotent; "
              "write -> read round trip", nviol == 0 or allok and not c.violations)
+    c.oblige("executable bestLogProb (driver) = independent Bellman-Ford implementation (checker) on sampled grammars/sentences",
+             not runner.stats["best_crosscheck_failures"], runner.stats["best_crosscheck_failures"][:3])
     c.oblige("oracle searches did not give up", runner.stats["oracle_errors"] == 0, runner.stats["oracle_errors"])
     st = runner.stats
     c.cov.update({"evaluations": nev + exhaustive + ncorp, "distinct_nontrivial": len(distinct) + exhaustive,
@@ -917,6 +989,7 @@ def check(c):
                   "generated_cases": nev, "exhaustive_null_graphs": exhaustive, "corpus_cases": ncorp,
                   "language_equivalence_oracles_run": st["oracle_nfaeq"], "best_probability_oracles_run": st["oracle_besteq"],
                   "best_probability_sentences_compared": st["best_sentences"], "of_which_accepted": st["best_accepting"],
+                  "best_probability_crosschecks_driver_vs_checker": st["best_crosschecks"],
                   "idempotence_checks_on_implementation": st["idempotence_checks"],
                   "closure_cases_that_changed_the_grammar": st["closure_raised_or_added_cases"],
                   "null_links_added_by_closure": st["closure_added"],
@@ -925,7 +998,7 @@ def check(c):
                   "reads_accepted": st["read_ok"], "reads_refused": st["read_err"],
                   "states_histogram": {str(k): v for k, v in sorted(stats["states"].items())},
                   "language_weights": stats["lw"], "logp_kinds": stats["logp_kinds"], "phases": stats["phases"],
-                  "model_branches_hit": stats["branches"], "longest_explicit_null_chain": stats["max_chain"],
+                  "model_branches_hit": stats["branches"], "branch_outcomes_measured": dict(sorted(st["branch_outcomes"].items())), "longest_explicit_null_chain": stats["max_chain"],
                   "reader_text_kinds": stats["read_kinds"], "known_finding_classes_seen": sorted(known)})
 
 
